@@ -489,6 +489,51 @@ ITER_ELF_OPS = ['sections', 'segments', 'symbols', 'dynamic_tags', 'needed', 'se
 ITER_DWARF_OPS = ['iter_CUs', 'iter_DIEs(A)', 'children(ns)', 'CFI_entries', 'pubnames', 'line_program(A)']
 
 
+# ------------------------------------------------------------------ L7 type units: lookups by signature after partial iteration
+def h_type_units(ctx):
+    cfg = ctx.cfg
+    little = cfg['little']
+    ab = abbrev_table([(1, T.TAG_CU, True, []), (2, T.TAG_VAR, False, [(T.AT['const_value'], 0x0b)]), (3, T.TAG_VAR, False, [(T.AT['type'], 0x20)])])
+    sigs = [0x1111, 0x8000000000000002, 0x33]
+    types, tu_offs = [], []
+    for i, sg in enumerate(sigs):
+        hp, hsz = unit_header(4, False, little, 8, 0, tu=True, body_len=0)
+        h, _ = unit_header(4, False, little, 8, 0, tu=True, body_len=4, signature=sg, type_offset=hsz + 1)
+        tu_offs.append(len(types))
+        types += h + [1, 2, 0x40 + i, 0]
+    hI, hszI = unit_header(4, False, little, 8, 0, 'compile', body_len=1 + 3 * 9 + 1)
+    info = hI + [1] + sum([[3] + enc.enc_int(sg, 8, little) for sg in sigs], []) + [0]
+
+    def fresh():
+        return mk_dwarfinfo(ctx, little, 8, debug_info=info, debug_abbrev=ab, debug_types=types)[0]
+
+    def answers(di):
+        out = []
+        for sg in sigs:
+            tu = di.get_TU_by_sig8(sg)
+            d = di.get_DIE_by_sig8(sg)
+            out.append((tu.tu_offset, d.offset, d.attributes['DW_AT_const_value'].value))
+        kids = list(next(di.iter_CUs()).get_top_DIE().iter_children())
+        out.append([k.get_DIE_from_attribute('DW_AT_type').offset for k in kids])
+        out.append([t.tu_offset for t in di.iter_TUs()])
+        return out
+    cold = answers(fresh())
+    di = fresh()
+    sched = cfg['schedule']
+    if sched.startswith('steps:'):
+        it = di.iter_TUs()
+        for _ in range(int(sched.split(':')[1])):
+            next(it)
+    elif sched == 'full':
+        list(di.iter_TUs())
+    elif sched == 'lookup-last-first':
+        di.get_TU_by_sig8(sigs[-1])
+    ctx.outcome('ok')
+    got = answers(di)
+    ctx.check_eq('L7/type-units/%s/equals-cold' % sched.split(':')[0], got, cold)
+    ctx.check_eq('L7/type-units/offsets', [a[0] for a in got[:3]], tu_offs)
+
+
 # ------------------------------------------------------------------ L3 memo tables
 def h_memo(ctx):
     """answers after an arbitrary set of earlier queries (every subset / order in cfg) equal the cold answers"""
@@ -643,6 +688,9 @@ HARNESSES = [
       decoy='all', expect=('ok',),
       desc='L6: a v5 line-program header decoded after another header whose entry formats have the same forms but other content types (decoy run in the same path) '
            'gives the cold answer (harness shared with C05)'),
+    H('h10_L7_type_units', h_type_units, lambda tier: [dict(little=l, schedule=sc) for l in (True, False) for sc in ('cold', 'steps:0', 'steps:1', 'steps:2', 'full', 'lookup-last-first')],
+      expect=('ok',), decoy=-1,
+      desc='L7: type units found by signature, references through DW_FORM_ref_sig8 and the unit list after iter_TUs() was abandoned after 0-2 steps, run to the end, or after a lookup: cold answers (ground)'),
     H('h10_L3_memo', h_memo, _memo_instances, expect=('ok',),
       desc='L3: after any single earlier query, after pairs / longer histories and after the whole alphabet in both orders, every query returns its cold answer (unit list, entry lists, abbreviation, '
            'line-program, type-unit and decoded-table memos)'),
